@@ -23,8 +23,11 @@ CONVERSIONS = [
     ('p=kPa,l=mass:g', dict(pressure_mode='absolute', pressure_unit='kPa', loading_basis='mass', loading_unit='g')),
     ('T=degC', dict(temperature='°C')),
     ('json', dict(json=True)),
+    # two steps: a representation reached through another one (stored in per cent of saturation, then made absolute again)
+    ('p=relative%>bar', dict(pressure_mode='relative%', _then=dict(pressure_mode='absolute', pressure_unit='bar'))),
+    ('p=relative>kPa', dict(pressure_mode='relative', _then=dict(pressure_mode='absolute', pressure_unit='kPa'))),
 ]
-QUICK = ('p=Pa', 'p=relative%', 'l=mass:mg', 'l=volume_liquid:cm3', 'l=volume_gas:cm3', 'p=kPa,l=mass:g', 'T=degC', 'json')
+QUICK = ('p=Pa', 'p=relative%', 'p=relative%>bar', 'l=mass:mg', 'l=volume_liquid:cm3', 'l=volume_gas:cm3', 'p=kPa,l=mass:g', 'T=degC', 'json')
 
 
 def _load(name):
@@ -43,6 +46,7 @@ def _converted(iso, conv):
     import pygaps.parsing as pgp
     c = _copy(iso)
     conv = dict(conv)
+    then = conv.pop('_then', None)
     if conv.pop('json', False):
         return pgp.isotherm_from_json(c.to_json())
     t = conv.pop('temperature', None)
@@ -50,6 +54,8 @@ def _converted(iso, conv):
         c.convert_temperature(t)
     if conv:
         c.convert(**conv)
+    if then:
+        c.convert(**then)
     return c
 
 
